@@ -12,9 +12,10 @@ pub mod rustls {
     use super::*;
     use std::fmt;
 
-    #[derive(Debug, Clone, PartialEq)]
+    /// Field-less (see quick-xml model errors.rs for why).
+    #[derive(Debug, Clone, Copy, PartialEq, Eq)]
     pub enum Error {
-        General(String),
+        General,
         NoCertificatesPresented,
     }
     impl fmt::Display for Error {
